@@ -241,6 +241,8 @@ pub enum What {
     Blackhole { side: Side },
     DropMux { side: Side },
     Wake(u8),
+    /// virtual time advances by one keepalive interval (sides with `Case::keepalive` queue a Ping)
+    Tick,
 }
 
 #[derive(Clone, Debug, Hash, PartialEq, Eq, Serialize, Deserialize)]
@@ -297,6 +299,10 @@ pub struct Case {
     pub sched_phase: u8,
     #[serde(default)]
     pub bridges: Vec<BridgeSpec>,
+    /// keepalive pings enabled on that side (interval = one `What::Tick`; no timeout): Ping messages share the outbound
+    /// queue with frames
+    #[serde(default)]
+    pub keepalive: [bool; 2],
 }
 
 impl Default for BindPolicy {
@@ -322,6 +328,7 @@ impl Default for Case {
             schedule: vec![],
             sched_phase: 0,
             bridges: vec![],
+            keepalive: [false, false],
         }
     }
 }
